@@ -51,6 +51,8 @@ def evaluate(chk, pid, cases, gens, gos, models, stats, samples):
                 if len(samples) < 4:
                     samples.append({"script": c["script"], "vars": c.get("vars"), "balances": c.get("balances"),
                                     "go": {k2: go.get(k2) for k2 in ("outcome", "errKind", "errPayload", "postings")}})
+        if o.get("apiDiff"):
+            failures.append((c, go, m, ["the public API (numscript.Parse(..).Run / RunWithFeatureFlags) does not return what the interpreter computes: %s" % "; ".join(o["apiDiff"])[:600]]))
         if o.get("prefixMismatch"):
             failures.append((c, go, m, ["postings of a prefix of the script differ from the prefix of the postings"]))
         if m is not None:
